@@ -187,7 +187,7 @@ and gen_refined (p : pred) (s' : schema) : gval =
   match opaque_kind p, s' with
   | Some 6, SBytes (_, _, mx) ->
       let mx = int_of_n mx in
-      let target = match below 8 with 0 -> 0 | 1 -> mx | _ -> below 30 in
+      let target = match below 8 with 0 -> 0 | 1 -> min mx 5000 | _ -> below 30 in
       let rec build acc len =
         if len >= target then acc else
           let c = ascii_or_utf8 () in
